@@ -52,6 +52,7 @@ spec fn fold_pieces(s: Option<Summary>, ps: Seq<Piece>) -> Option<Summary>
 spec fn flushed_to(ps: Seq<Piece>, a: int) -> int { if ps.len() > 0 { ps.last().e } else { a } }
 
 //@extract closure bigtools/src/bbi/bigbedwrite.rs process_val add_interval_to_summary
+//@rule R16
 //@header fn add_interval_to_summary(overlap: &mut VList, summary: &mut Option<Summary>, item_start: u32, item_end: u32, next_start_opt: Option<u32>, Ghost(ents): Ghost<Seq<(u32, u32)>>, Ghost(d0): Ghost<Seq<nat>>) -> (out: Ghost<(Seq<nat>, Seq<Piece>)>)
 //@rule R5 min=4
 //@rule R6 min=2
